@@ -434,3 +434,16 @@ unit({
         _dw('SeekForward', autos={'streamSize': 'size_t'}), _dw('SeekBackward', autos={'streamSize': 'size_t'}), _dw('Seek'), _dw('GetReader'),
     ],
 })
+
+# --------------------------------------------------------------------------- U-FILEW (FileWriter::TranslateFlags against the C++ open-mode table)
+unit({
+    'name': 'filew',
+    'typemap': {'std::ios_base::openmode': 'OP2_IOS_openmode', 'OpenMode': 'OpenMode', 'std::string': 'str', 'FileWriter': 'FileWriter'},
+    'enums': [('src/Stream/FileWriter.h', 'OpenMode')],
+    'structs': [STR_VIEW],
+    'scoped': {'OpenMode': 'OpenMode', 'XFile': ''},
+    'calls': {'PathExists': N('XFile_PathExists', recv='none', args=['ref'])},
+    'functions': [
+        {'file': 'src/Stream/FileWriter.cpp', 'qual': 'FileWriter::TranslateFlags', 'cls': 'FileWriter', 'static': True, 'cname': 'FileWriter_TranslateFlags', 'ret_cxx': 'std::ios_base::openmode', 'members': {}},
+    ],
+})
